@@ -54,6 +54,8 @@ pub struct HistCfg {
     pub lifecycle_ext: bool,
     /// position token accounts get delegates (another user or the owner itself, amounts 0 / 1 / 2 / max) and lose them again
     pub delegates: bool,
+    /// half of the plain Token-2022 mints carry a transfer-hook extension that names no program (with a token badge)
+    pub idle_hooks: bool,
     pub spacings: Vec<u16>,
 }
 impl Default for HistCfg {
@@ -78,6 +80,7 @@ impl Default for HistCfg {
             all_adaptive: false,
             lifecycle_ext: false,
             delegates: false,
+            idle_hooks: false,
             spacings: vec![1, 8, 64, 120, 128, 256, 32768, 32896],
         }
     }
@@ -152,6 +155,11 @@ impl Hist {
                     let maxf2 = *rnd::pick(&mut w.r, &[5u64, 5000, u64::MAX]);
                     let newer_epoch = *rnd::pick(&mut w.r, &[0u64, 10, 11, 1000]);
                     w.add_t22_mint(6, Some(((bps, maxf, 0), (bps2, maxf2, newer_epoch))))
+                } else if cfg.idle_hooks && rnd::chance(&mut w.r, 2, 3) {
+                    // a mint whose transfer-hook extension names no program, admitted by a token badge
+                    let m = w.add_t22_mint_idle_hook(6);
+                    w.add_token_badge(c, m);
+                    m
                 } else {
                     w.add_t22_mint(6, None)
                 }
@@ -314,6 +322,36 @@ impl Hist {
         ix
     }
 
+    /// One liquidity instruction (or fee-and-reward update) in twenty names, in ONE of its two tick-array slots, the tick
+    /// array that ANOTHER pool keeps at the same start index (created on the spot where that pool's spacing admits the
+    /// start index): whichever of the two slots it is, the instruction must be refused.
+    fn maybe_foreign_tick_array(w: &mut World, mut ix: Ix, acc: &mut Acc) -> Ix {
+        const NAMES: [&str; 6] = ["increase_liquidity", "decrease_liquidity", "increase_liquidity_v2", "decrease_liquidity_v2", "increase_liquidity_by_token_amounts_v2", "update_fees_and_rewards"];
+        if !NAMES.contains(&ix.name) || w.pools.len() < 2 || !rnd::chance(&mut w.r, 1, 20) {
+            return ix;
+        }
+        let (Some(il), Some(iu), Some(ip)) = (ix.slot("tick_array_lower"), ix.slot("tick_array_upper"), ix.slot("whirlpool")) else { return ix };
+        if ix.metas[il].key == ix.metas[iu].key {
+            return ix;
+        }
+        let which = if w.r.gen() { iu } else { il };
+        let Some(Ok(ta)) = w.bank.data(&ix.metas[which].key).and_then(codec::TickArray::decode) else { return ix };
+        let pool_key = ix.metas[ip].key;
+        let start = ta.start_tick_index;
+        let others: Vec<usize> = (0..w.pools.len()).filter(|q| w.pools[*q].key != pool_key && start % (88 * w.pools[*q].tick_spacing as i32) == 0).collect();
+        if others.is_empty() {
+            return ix;
+        }
+        let q = *rnd::pick(&mut w.r, &others);
+        let dynamic = w.r.gen();
+        let foreign = w.ensure_tick_array(q, start, dynamic);
+        if w.bank.get(&foreign).is_some() {
+            ix.metas[which].key = foreign;
+            acc.count("liquidity_ix_naming_another_pools_tick_array");
+        }
+        ix
+    }
+
     /// One swap / two-hop in twenty-five names the pool's own vault as the trader's account on the side that pays in
     /// (same mint, so the account constraint is met): the token program refuses the transfer, so the instruction fails.
     fn maybe_vault_as_trader_account(w: &mut World, mut ix: Ix, acc: &mut Acc) -> Ix {
@@ -339,6 +377,7 @@ impl Hist {
         let ix = Self::maybe_sibling_vault(w, ix, acc);
         let ix = Self::maybe_vault_as_trader_account(w, ix, acc);
         let ix = Self::maybe_empty_slice(w, ix, acc);
+        let ix = Self::maybe_foreign_tick_array(w, ix, acc);
         let obs = w.exec(ix);
         acc.evaluations += 1;
         acc.count(if obs.ok() { "ix_ok" } else { "ix_failed" });
